@@ -204,7 +204,7 @@ def correspondence(ctx):
     c3, m3, t3 = _pass_cases(ctx, ctx.n(20, 250))
     cases.update(c3), meta.update(m3), tests.update(t3)
     dis += _run_cases("c03", "From Snax Require Import Base.Prelude Model.C03Schedule Model.C16Matcher.", cases, meta, tests,
-                      nfiles=ctx.n(6, 12))
+                      nfiles=ctx.n(3, 12))
     return dis
 
 
